@@ -135,6 +135,18 @@ def search(ctx):
         runs.append({"tf": min(tf, 15.0), "estimators": ["mrp"], "initialize": bool(i % 2 == 0),
                      "x0": [float(v) for v in np.concatenate([r, rng.uniform(-0.04, 0.04, 3)])],
                      "params": {"sim/enable_noise": False, "sim/dt_sim": 1e-3, "sim/dt_imu": 1e-3, "sim/mag_incl": float(rng.uniform(-0.8, 0.8))}})
+    # a configured gravity other than the default, set consistently on simulator and estimator, without the initialisation step
+    # (initialize() compares with the literal 9.8 and would refuse to initialise — a known limitation outside this run)
+    for gv in ((8.0, 11.5) if big else (8.0,)):
+        r = rng.standard_normal(3); r *= rng.uniform(0.2, 0.8) / np.linalg.norm(r)
+        runs.append({"tf": tf, "estimators": ["mrp"], "initialize": False,
+                     "x0": [float(v) for v in np.concatenate([r, rng.uniform(-0.04, 0.04, 3)])],
+                     "params": {"sim/enable_noise": False, "sim/g": gv, "mrp/g": gv}})
+    # estimator accelerometer throttle slower than the IMU (corrections at 20 Hz, IMU at 200 Hz)
+    r = rng.standard_normal(3); r *= rng.uniform(0.2, 0.8) / np.linalg.norm(r)
+    runs.append({"tf": tf, "estimators": ["mrp"], "initialize": False,
+                 "x0": [float(v) for v in np.concatenate([r, rng.uniform(-0.04, 0.04, 3)])],
+                 "params": {"sim/enable_noise": False, "mrp/dt_min_accel": 0.05}})
     n_runs = len(runs)
     ctxmp = mp.get_context("fork")
     with ctxmp.Pool(min(16, n_runs)) as pool:
